@@ -552,7 +552,7 @@ func (h *c20H) startRetirement() {
 }
 
 func (h *c20H) retireGate(rt *c20Retire) {
-	long := true
+	long := false // canonical representative: a short retirement, so that a later request can be accepted at all
 	if !h.sc.canonical(rt.owner) {
 		long = vsched.ChooseFree(2, "retirement-ends") == 0
 	}
